@@ -125,6 +125,15 @@ def run(ctx):
             loc=m.loc(n),
         )
     a, b = loops(init_f), loops(cols)
+    if len(a) < 2:
+        # the collection may be delegated to a helper (possibly in a helper module)
+        fa = loops(ctx.norm.flat(init_f, depth=3))
+        if len(fa) == 2:
+            a = fa
+    if len(b) < 2:
+        fb = loops(ctx.norm.flat(cols, depth=3))
+        if len(fb) == 2:
+            b = fb
     if early_stale and not a:
         a = b
     # both may draw from one shared private generator that walks
@@ -169,9 +178,12 @@ def run(ctx):
         chk.violation("R11.a", init_f, None, f"features are collected over `{a[0][0]}`, not over the component list in order")
     else:
         raise AnalysisError(f"composite loops not recognised: {a} / {b}")
-    conc = [n for f, _ in lc.self_closure(init_f, comp) for n in own_nodes(f.node) if isinstance(n, ast.Call) and (dotted(n.func) or "").endswith("concatenate")]
+    # the methods reachable through self-calls plus initialize_features with its
+    # (module-level, possibly moved) helpers inlined
+    scope = [f for f, _ in lc.self_closure(init_f, comp)] + [ctx.norm.flat(init_f, depth=3)]
+    conc = [n for f in scope for n in own_nodes(f.node) if isinstance(n, ast.Call) and (dotted(n.func) or "").endswith("concatenate")]
     if not conc:
-        conc = [n for f, _ in lc.self_closure(init_f, comp) for n in own_nodes(f.node) if isinstance(n, ast.Call) and (dotted(n.func) or "").endswith(("hstack", "column_stack"))]
+        conc = [n for f in scope for n in own_nodes(f.node) if isinstance(n, ast.Call) and (dotted(n.func) or "").endswith(("hstack", "column_stack"))]
         if conc:
             chk.ok("R11.a", init_f.qualname, init_f.loc(conc[0]), "column-wise stacking")
         else:
@@ -212,7 +224,7 @@ def run(ctx):
         )
     # (b) the loops that read .features run inside initialize_features' own closure
     reads = [
-        n for f, _ in lc.self_closure(init_f, comp) for n in own_nodes(f.node)
+        n for f in scope for n in own_nodes(f.node)
         if isinstance(n, ast.Attribute) and n.attr == "features" and not (isinstance(n.value, ast.Name) and n.value.id == "self")
     ]
     if reads and not stale:
@@ -409,20 +421,35 @@ def _guards_of(ctx, lc, cls, m, node, _depth=0):
     child = node
     while cur is not None and cur is not m.node:
         if isinstance(cur, ast.If) and child in cur.body:
-            out.append(_expand_flags(ctx, lc, cls, m, cur.test))
+            out.append(_expand_flags(ctx, lc, cls, m, cur.test, _depth))
         elif isinstance(cur, ast.If) and child in cur.orelse:
             # else-branch: the negation of the test holds (`if not flag: ... else: <here>`)
             t = cur.test
             if isinstance(t, ast.UnaryOp) and isinstance(t.op, ast.Not):
-                out.append(_expand_flags(ctx, lc, cls, m, t.operand))
+                out.append(_expand_flags(ctx, lc, cls, m, t.operand, _depth))
         elif isinstance(cur, ast.match_case) and cur.guard is not None:
-            out.append(_expand_flags(ctx, lc, cls, m, cur.guard))
+            out.append(_expand_flags(ctx, lc, cls, m, cur.guard, _depth))
         elif isinstance(cur, ast.IfExp):
             if child is cur.body:
-                out.append(_expand_flags(ctx, lc, cls, m, cur.test))
+                out.append(_expand_flags(ctx, lc, cls, m, cur.test, _depth))
             elif child is cur.orelse and isinstance(cur.test, ast.UnaryOp) and isinstance(cur.test.op, ast.Not):
-                out.append(_expand_flags(ctx, lc, cls, m, cur.test.operand))
+                out.append(_expand_flags(ctx, lc, cls, m, cur.test.operand, _depth))
+        # earlier guard clauses of the same block: `if not T: ...; return` => T holds here
+        body = getattr(cur, "body", None)
+        for blk in (body, getattr(cur, "orelse", None)):
+            if isinstance(blk, list) and child in blk:
+                for st in blk[: blk.index(child)]:
+                    if isinstance(st, ast.If) and not st.orelse and st.body and isinstance(st.body[-1], (ast.Return, ast.Raise, ast.Continue)):
+                        t = st.test
+                        if isinstance(t, ast.UnaryOp) and isinstance(t.op, ast.Not):
+                            out.append(_expand_flags(ctx, lc, cls, m, t.operand, _depth))
         child, cur = cur, m.module.parents.get(cur)
+    if cur is m.node and isinstance(m.node.body, list) and child in m.node.body:
+        for st in m.node.body[: m.node.body.index(child)]:
+            if isinstance(st, ast.If) and not st.orelse and st.body and isinstance(st.body[-1], (ast.Return, ast.Raise)):
+                t = st.test
+                if isinstance(t, ast.UnaryOp) and isinstance(t.op, ast.Not):
+                    out.append(_expand_flags(ctx, lc, cls, m, t.operand, _depth))
     if _depth < 2 and m.name != "__init__":
         sites = []
         for g in cls.methods.values():
@@ -434,15 +461,26 @@ def _guards_of(ctx, lc, cls, m, node, _depth=0):
     return out
 
 
-def _expand_flags(ctx, lc, cls, m, test):
+def _expand_flags(ctx, lc, cls, m, test, _depth=0):
     """Text of ``test`` with ``self.<flag>`` replaced by the (single) expression
     assigned to that attribute in the class, itself alias-expanded."""
     txt = ctx.norm.xtext(m, test)
     for x in ast.walk(test):
         if isinstance(x, ast.Attribute) and isinstance(x.value, ast.Name) and x.value.id == "self":
             srcs = [(f, v) for f, v in lc.attr_sources(cls, x.attr) if v is not None]
-            if len(srcs) == 1:
+            if len(srcs) == 1 or (srcs and len({ctx.norm.xtext(f, v) for f, v in srcs}) == 1):
+                # one assignment, or several that store the same expression
                 txt = txt.replace(f"self.{x.attr}", "(" + ctx.norm.xtext(srcs[0][0], srcs[0][1]) + ")")
+            elif _depth < 2 and len(srcs) > 1 and all(isinstance(v, ast.Constant) and isinstance(v.value, bool) for _, v in srcs):
+                # a flag set to True on one path and False on the others: it
+                # means the conditions under which the True assignment runs
+                true = [(f, v) for f, v in srcs if v.value is True]
+                if len(true) == 1:
+                    f, v = true[0]
+                    stmt = f.module.parents.get(v)
+                    gs = _guards_of(ctx, lc, cls, f, stmt, _depth + 1) if stmt is not None else []
+                    if gs:
+                        txt = txt.replace(f"self.{x.attr}", "(" + " and ".join(f"({g})" for g in gs) + ")")
     return txt
 
 
